@@ -90,6 +90,7 @@ class Sim:
         self.raw_log = []       # (node idx, cid, origin, data)
         self.loop_errors = []
         self.drop_next = None
+        self.hold = set()       # nodes whose outgoing datagrams are silently lost
         _random.seed(rng.getrandbits(64))
 
     # -- construction -----------------------------------------------------------------------------------------
@@ -157,6 +158,8 @@ class Sim:
         ov.on_raw_data = on_raw_data
 
     def _on_send(self, idx, addr, pkt):
+        if idx in self.hold:
+            return
         if self._origin is not None:
             p = self._origin
             p.sent = True
@@ -227,9 +230,17 @@ class Sim:
         from ipv8.messaging.anonymization.exit_socket import TunnelExitSocket
         sim = self
 
-        class HExit(TunnelExitSocket):
+        from ipv8.messaging.interfaces.endpoint import EndpointListener
+
+        class HExit(TunnelExitSocket, EndpointListener):
+            """exit socket whose "outside world" is the mock internet; every packet handed to it is logged"""
+
             def __init__(self, parent, idx):
+                self.endpoint = sim.mep.AutoMockEndpoint()
+                self.endpoint.open()
                 TunnelExitSocket.__init__(self, parent.circuit_id, parent.hop, parent.overlay)
+                EndpointListener.__init__(self, self.endpoint, main_thread=False)
+                self.endpoint.add_listener(self)
                 self.idx = idx
                 self.parent = parent
 
@@ -240,6 +251,12 @@ class Sim:
                 if not sim.open_policy and not self.is_allowed(data):
                     return
                 sim.exit_log.append((self.idx, self.circuit_id, bytes(data), tuple(destination)))
+                if tuple(destination) in sim.mep.internet:
+                    self.endpoint.send(destination, data)
+
+            def on_packet(self, packet):
+                source_address, data = packet
+                self.datagram_received(data, source_address)
 
             async def close(self):
                 await self.shutdown_task_manager()
@@ -301,12 +318,13 @@ class Sim:
             for cid in sorted(o.circuits):
                 c = o.circuits[cid]
                 keys = [kid(h.keys) for h in c.hops]
-                if not c.hops or None in keys:
+                if None in keys:
                     continue
                 hs = kid(c.hs_session_keys)
                 ks = "[" + ",".join(map(str, keys)) + "]"
-                parts.append(f"C{cid}:{ks}:{a2i(c.hop.address)}:{hs if hs else '-'}:{ct[c.ctype]}:{c.relay_early_count}")
-                lines.append(f"circ {i} {cid} {a2i(c.hop.address)} {ct[c.ctype]} {c.relay_early_count} {hs if hs else '-'} {ks}")
+                fh = a2i(c.hop.address) if c.hop is not None else 999
+                parts.append(f"C{cid}:{ks}:{fh}:{hs if hs else '-'}:{ct[c.ctype]}:{c.relay_early_count}")
+                lines.append(f"circ {i} {cid} {fh} {ct[c.ctype]} {c.relay_early_count} {hs if hs else '-'} {ks}")
             for cid in sorted(o.relay_from_to):
                 r = o.relay_from_to[cid]
                 d = "F" if r.direction == 0 else "B"
@@ -589,7 +607,7 @@ def positions(ctx: Ctx, rng, pkt_len: int, all_bytes: bool):
     if body:
         pick.update([29, 36, 37, pkt_len - 17, pkt_len - 16, pkt_len - 1])
         pick.update(rng.sample(body, min(len(body), ctx.scale(4, 12))))
-    return rng.sample(hdr, ctx.scale(9, 29)) + sorted(x for x in pick if 29 <= x < pkt_len)
+    return rng.sample(range(22), ctx.scale(2, 8)) + list(range(22, 29)) + sorted(x for x in pick if 29 <= x < pkt_len)
 
 
 async def run_plain(ctx: Ctx, rng, hops: int, use_model: bool, seed_tag: str, all_bytes_sizes=()):
@@ -619,6 +637,16 @@ async def run_plain(ctx: Ctx, rng, hops: int, use_model: bool, seed_tag: str, al
                 ctx.oracle_fail("circuit:path-length", f"{tag}: circuit {c.circuit_id} has {len(c.hops)} hops but its relay chain has {len(path)} nodes",
                                 {"scenario": tag})
                 return
+        if ck.drv is not None:
+            # the hypotheses of forward_delivers / backward_delivers (FwdChain / BwdChain), decided on the real tables
+            for c, path in zip(circuits, paths):
+                nodes = [n for n, _ in path]
+                rf = ck.ask(f"chainf 0 {c.circuit_id} [{','.join(map(str, nodes))}]")
+                rb = ck.ask(f"chainb {path[-1][0]} {path[-1][1]} [{','.join(map(str, [*reversed(nodes[:-1]), 0]))}]")
+                ctx.count(f"chain_hypothesis:{'ok' if rf.startswith('ok') and rb.startswith('ok') else 'no'}")
+                if rf != f"ok {path[-1][0]} {path[-1][1]}" or rb != f"ok 0 {c.circuit_id}":
+                    ctx.disagree(f"{tag}: the tables built for circuit {c.circuit_id} do not satisfy the path hypotheses of the theorems "
+                                 f"(FwdChain: {rf}, BwdChain: {rb})", {"scenario": tag, "hops": hops, "tables": sim.tables()[0]})
         sizes = [rng.choice(SIZES) for _ in range(ctx.scale(5, 12))] + [0, 1500] + ([4096] if ctx.thorough() else [])
         # ---- genuine traffic -------------------------------------------------------------------------------
         for ci, (c, path) in enumerate(zip(circuits, paths)):
@@ -698,7 +726,7 @@ async def run_plain(ctx: Ctx, rng, hops: int, use_model: bool, seed_tag: str, al
             ctx.count("op:test_request")
         ck.compare_tables("after genuine traffic")
         # ---- altered cells ------------------------------------------------------------------------------------
-        await tamper_round(ctx, rng, ck, sim, circuits, paths, hops, open_policy, all_bytes_sizes)
+        await tamper_round(ctx, rng, ck, sim, plain_senders(sim, circuits[0], paths[0]), hops, open_policy, all_bytes_sizes)
         # ---- injected cells -----------------------------------------------------------------------------------
         await inject_round(ctx, rng, ck, sim, circuits, paths, hops)
         ck.compare_tables("at the end")
@@ -719,11 +747,20 @@ def pos_class(pos):
             else "earlyflag" if pos == 28 else "nonce" if pos < 37 else "body")
 
 
-async def tamper_round(ctx, rng, ck: Checker, sim: Sim, circuits, paths, hops, open_policy, all_bytes_sizes):
-    tag = ck.tag
+def plain_senders(sim: Sim, c, path):
     ov = sim.nodes[0].overlay
-    c, path = circuits[0], paths[0]
     exit_node, exit_cid = path[-1]
+
+    def fwd(payload):
+        ov.send_data(c.hop.address, c.circuit_id, ("8.8.4.4", 4242), ZERO, payload)
+
+    def bwd(payload):
+        sim.nodes[exit_node].overlay.exit_sockets.get(exit_cid).tunnel_data(("9.9.9.9", 999), payload)
+    return {"fwd": fwd, "bwd": bwd}
+
+
+async def tamper_round(ctx, rng, ck: Checker, sim: Sim, senders, hops, open_policy, all_bytes_sizes, kindtag="plain"):
+    tag = ck.tag
     plan = []
     for direction in ("fwd", "bwd"):
         for link in range(hops):
@@ -735,10 +772,7 @@ async def tamper_round(ctx, rng, ck: Checker, sim: Sim, circuits, paths, hops, o
         first = len(sim.passages)
         sim.op_first_pid = first
         probe = rand_payload(rng, size, not open_policy)
-        if direction == "fwd":
-            ov.send_data(c.hop.address, c.circuit_id, ("8.8.4.4", 4242), ZERO, probe)
-        else:
-            sim.nodes[exit_node].overlay.exit_sockets.get(exit_cid).tunnel_data(("9.9.9.9", 999), probe)
+        senders[direction](probe)
         await sim.settle()
         ck.check_passages(first, "probe", {"scenario": tag, "op": "probe", "size": size})
         pw = sim.passages[first].wires
@@ -761,11 +795,7 @@ async def tamper_round(ctx, rng, ck: Checker, sim: Sim, circuits, paths, hops, o
                 holder["new"] = new
                 return new
             sim.tamper = (0, wire_index, fn)
-            if direction == "fwd":
-                ov.send_data(c.hop.address, c.circuit_id, ("8.8.4.4", 4242), ZERO, payload)
-            else:
-                xs = sim.nodes[exit_node].overlay.exit_sockets.get(exit_cid)
-                xs.tunnel_data(("9.9.9.9", 999), payload)
+            senders[direction](payload)
             await sim.settle()
             sim.tamper = None
             if "new" not in holder:
@@ -813,34 +843,37 @@ async def tamper_round(ctx, rng, ck: Checker, sim: Sim, circuits, paths, hops, o
                     if mw != real or mfin != fin:
                         ctx.disagree(f"{tag}: altered byte {pos} on link {link} ({direction}): model {mw} {mfin} != implementation {real} {fin}",
                                      {**replay, "model": m, "impl": real + [fin]})
-            ctx.case((tag.split('/')[0], hops, "tamper", direction, link, pc, size if allb else 0), True)
+            ctx.case((kindtag, hops, "tamper", direction, link, pc, size if allb else 0), True)
 
 
-async def inject_round(ctx, rng, ck: Checker, sim: Sim, circuits, paths, hops):
+async def inject_round(ctx, rng, ck: Checker, sim: Sim, circuits, paths, hops, senders=None, kindtag="plain"):
     """cells made by someone who holds no (or the wrong) session keys"""
     tag = ck.tag
     ov = sim.nodes[0].overlay
     prefix = ov.get_prefix()
-    c, path = circuits[0], paths[0]
-    exit_node, exit_cid = path[-1]
+    c = circuits[0]
+    senders = senders or plain_senders(sim, circuits[0], paths[0])
     # capture one genuine forward and one genuine backward passage as raw material
     payload = rand_payload(rng, 64, not sim.open_policy)
     first = len(sim.passages)
     sim.op_first_pid = first
-    ov.send_data(c.hop.address, c.circuit_id, ("8.8.4.4", 4242), ZERO, payload)
+    senders["fwd"](payload)
     await sim.settle()
     fwd = sim.passages[first]
     first = len(sim.passages)
-    sim.nodes[exit_node].overlay.exit_sockets[exit_cid].tunnel_data(("9.9.9.9", 999), payload)
+    senders["bwd"](payload)
     await sim.settle()
     bwd = sim.passages[first]
+    if not fwd.wires or not bwd.wires:
+        ctx.oracle_fail("inject:capture", f"{tag}: genuine cells did not travel", {"scenario": tag, "hops": hops})
+        return
     if ck.drv is not None:
         ck.check_passages(fwd.pid, "capture", {"scenario": tag, "op": "capture"})
     cases = []
     links_f = fwd.wires       # link j: (src, dst, cid, pt, re, body)
     links_b = bwd.wires
-    other = circuits[1] if len(circuits) > 1 else None
-    opath = paths[1] if len(paths) > 1 else None
+    other = circuits[1] if len(circuits) > 1 and paths else None
+    opath = paths[1] if paths and len(paths) > 1 else None
     for j, (src, dst, cid, pt, re, body) in enumerate(links_f):
         # reflected: the forward cell of link j sent back to its sender
         cases.append(("reflect", src, dst, cid, body, fwd.msg))
@@ -859,8 +892,8 @@ async def inject_round(ctx, rng, ck: Checker, sim: Sim, circuits, paths, hops):
         cases.append(("clear-flagged", dst, src, cid, fwd.msg, fwd.msg))
         # a circuit id nobody knows
         cases.append(("unknown-cid", dst, src, (cid + 1 + rng.randrange(1000)) & 0xffffffff, fwd.msg, fwd.msg))
-    cases.append(("clear-flagged", 0, links_f[0][1], c.circuit_id, bwd.msg, bwd.msg))
-    cases.append(("clear-unflagged", 0, links_f[0][1], c.circuit_id, bwd.msg, bwd.msg))
+    cases.append(("clear-flagged", links_f[0][0], links_f[0][1], links_f[0][2], bwd.msg, bwd.msg))
+    cases.append(("clear-unflagged", links_f[0][0], links_f[0][1], links_f[0][2], bwd.msg, bwd.msg))
     for j, (src, dst, cid, pt, re, body) in enumerate(links_b):
         cases.append(("reflect-bwd", src, dst, cid, body, bwd.msg))
         cases.append(("foreign-bwd", dst, src, cid, bytes(rng.getrandbits(8) for _ in range(len(body))), None))
@@ -924,7 +957,223 @@ async def inject_round(ctx, rng, ck: Checker, sim: Sim, circuits, paths, hops):
                 if mw != real or mfin != fin:
                     ctx.disagree(f"{tag}: injected {kind} cell at node {dst}: model {mw} {mfin} != implementation {real} {fin}",
                                  {**replay, "model": m, "impl": real + [fin]})
-            ctx.case((tag.split('/')[0], hops, "inject", kind, re_flag), True)
+            ctx.case((kindtag, hops, "inject", kind, re_flag), True)
+
+
+
+# ------------------------------------------------------------------------------------------------------------------
+async def rp_reflect_round(ctx, rng, ck: Checker, sim: Sim, senders):
+    """the rendezvous point holds hop keys but not the end-to-end keys: it peels its own layer off a cell and sends the
+    content straight back to where it came from; the sender must not accept its own data as coming from the other end"""
+    tag = ck.tag
+    prefix = sim.nodes[0].overlay.get_prefix()
+    for direction in ("fwd", "bwd"):
+        payload = rand_payload(rng, 48)
+        first = len(sim.passages)
+        sim.op_first_pid = first
+        senders[direction](payload)
+        await sim.settle()
+        root = sim.passages[first]
+        if ck.drv is not None:
+            ck.check_passages(first, "capture", {"scenario": tag, "op": "capture"})
+        for (src, dst, cid, pt, re, body) in root.wires:
+            r = sim.nodes[dst].overlay.relay_from_to.get(cid) if dst < len(sim.nodes) else None
+            if r is None or not r.rendezvous_relay:
+                continue
+            try:
+                inner = r.hop.keys.decrypt_str(body, 0)
+            except Exception:
+                continue
+            back = r.hop.keys.encrypt_str(inner, 1)
+            pkt = prefix + b"\x00" + struct.pack("!I??", cid, False, False) + back
+            replay = {"scenario": tag, "op": "inject", "kind": "rp-reflect", "direction": direction, "dst": src, "src": dst,
+                      "cid": cid, "datagram": pkt.hex()}
+            n_raw, n_exit = len(sim.raw_log), len(sim.exit_log)
+            f2 = len(sim.passages)
+            q = sim.inject(src, dst, pkt)
+            await sim.settle()
+            if sim.raw_log[n_raw:] or sim.exit_log[n_exit:] or any(p.delivered for p in sim.passages[f2:]):
+                ctx.oracle_fail("inject:rp-reflect:delivered", f"{tag}: the rendezvous point reflected a {direction} e2e cell to its sender "
+                                "and the sender accepted its own data", replay)
+            ctx.count("inject:rp-reflect")
+            if ck.drv is not None:
+                pl = sim.peel(back, root.msg)
+                if pl and pl[-1] == "?":
+                    raise InfraError("reflected body does not peel")
+                m = ck.ask(f"inject {src} {dst} {cid} 0 0 [{','.join(pl)}] {root.msg.hex()}")
+                mw, mfin, reason = canon_model(m)
+                real = real_trace(sim, q, root.msg)
+                fin = real_final(q, q.wires[-1][1] if q.wires else src)
+                ctx.count(f"model_final:{reason}")
+                if mw != real or mfin != fin:
+                    ctx.disagree(f"{tag}: cell reflected by the rendezvous point: model {mw} {mfin} != implementation {real} {fin}",
+                                 {**replay, "model": m, "impl": real + [fin]})
+            ctx.case(("e2e", "inject", "rp-reflect", direction), True)
+
+
+# ------------------------------------------------------------------------------------------------------------------
+async def run_e2e(ctx: Ctx, rng, use_model: bool, seed_tag: str, all_bytes_sizes=()):
+    """downloader (node 0) -- relay -- rendezvous point -- seeder (node 2): data both ways, altered and injected cells"""
+    from ipv8.messaging.anonymization.tunnel import (CIRCUIT_TYPE_RP_DOWNLOADER, CIRCUIT_TYPE_RP_SEEDER, PEER_FLAG_EXIT_BT,
+                                                     PEER_FLAG_RELAY, PEER_FLAG_SPEED_TEST)
+    from ipv8.peer import Peer
+    from ipv8.test.messaging.anonymization.mock import global_dht_services
+    global_dht_services.clear()
+    sim = Sim(rng, hidden=True, open_policy=True)
+    tag = f"e2e/{seed_tag}"
+    ck = Checker(ctx, sim, use_model, tag)
+    try:
+        for _ in range(3):
+            sim.add_node()
+        service = bytes(rng.getrandbits(8) for _ in range(20))
+        linked = asyncio.get_running_loop().create_future()
+        o0, o2 = sim.nodes[0].overlay, sim.nodes[2].overlay
+        o0.join_swarm(service, 1, lambda a: (not linked.done()) and linked.set_result(a), seeding=False)
+        o2.join_swarm(service, 1, lambda a: None)
+        await sim.introduce([0, 1, 2])
+        await asyncio.wait_for(o2.create_introduction_point(service), 30)
+        await sim.settle(0.05)
+        sim.wrap_exits()
+        x = sim.add_node(flags={PEER_FLAG_RELAY, PEER_FLAG_SPEED_TEST, PEER_FLAG_EXIT_BT})
+        xn = sim.nodes[x]
+        pub = Peer(xn.my_peer.public_key, xn.my_peer.address)
+        sim.nodes[0].network.add_verified_peer(pub)
+        sim.nodes[0].network.discover_services(pub, [xn.overlay.community_id])
+        o0.candidates[pub] = list(xn.overlay.settings.peer_flags)
+        o0.build_tunnels(1)
+        await sim.settle(0.05)
+        sim.wrap_exits()
+        await o0.do_peer_discovery()
+        await sim.settle(0.1)
+        try:
+            await asyncio.wait_for(linked, 30)
+        except asyncio.TimeoutError:
+            pass
+        await sim.settle(0.05)
+        sim.wrap_exits()
+        dc = [c for c in o0.circuits.values() if c.ctype == CIRCUIT_TYPE_RP_DOWNLOADER and c.e2e and c.hs_session_keys]
+        sc = [c for c in o2.circuits.values() if c.ctype == CIRCUIT_TYPE_RP_SEEDER and c.hs_session_keys]
+        if not dc or not sc:
+            ctx.oracle_fail("e2e:not-established", f"{tag}: the end-to-end circuit was not linked on a loss-free network",
+                            {"scenario": tag, "op": "e2e-setup"})
+            return
+        d, sd = dc[0], sc[0]
+        for p in sim.passages:
+            p.setup = True
+        ctx.count("scenario:e2e")
+        sim.key_ids()
+        for p in sim.passages:
+            if p.kind == "cell":
+                ck.oracle_wires(p, "set-up", {"scenario": tag, "op": "setup", "msg_id": p.msg[:1].hex()})
+                ctx.count(f"setup_msg:{p.msg[0] if p.msg else -1}")
+        ck.load_tables()
+
+        def fwd(payload):
+            o0.send_data(d.hop.address, d.circuit_id, ZERO, ZERO, payload)
+
+        def bwd(payload):
+            o2.send_data(sd.hop.address, sd.circuit_id, ZERO, ZERO, payload)
+        senders = {"fwd": fwd, "bwd": bwd}
+        nlinks = None
+        sizes = [rng.choice(SIZES) for _ in range(ctx.scale(4, 10))] + [0, 1500]
+        for size in sizes:
+            for direction, recv_node, recv_cid in (("fwd", 2, sd.circuit_id), ("bwd", 0, d.circuit_id)):
+                payload = rand_payload(rng, size)
+                replay = {"scenario": tag, "op": f"e2e_{direction}", "size": size, "payload": payload.hex()}
+                first = len(sim.passages)
+                sim.op_first_pid = first
+                n_raw, n_exit = len(sim.raw_log), len(sim.exit_log)
+                senders[direction](payload)
+                await sim.settle()
+                ck.check_passages(first, f"e2e data {direction} size {size}", replay)
+                root = sim.passages[first]
+                nlinks = len(root.wires)
+                got = sim.raw_log[n_raw:]
+                if got != [(recv_node, recv_cid, ZERO, payload)] or sim.exit_log[n_exit:]:
+                    ctx.oracle_fail("e2e:delivery", f"{tag}: e2e data ({direction}, size {size}) arrived as {[(g[0], g[1], len(g[3])) for g in got]} "
+                                    f"instead of once at node {recv_node} circuit {recv_cid}", replay)
+                cs = getattr(root, "layer_counts", [])
+                if len(cs) != len(root.wires) or (cs and min(cs) < 2):
+                    ctx.oracle_fail("e2e:layers", f"{tag}: e2e data ({direction}): layers per link {cs}; the end-to-end layer plus one hop layer "
+                                    "must cover the payload on every link", replay)
+                ck.layer_monotone(root, direction, f"e2e data {direction}", replay, e2e=True)
+                ctx.case(("e2e", direction, "data", size), True)
+                ctx.count(f"op:e2e_{direction}:size_class:{size_class(size)}")
+                ctx.count(f"e2e_links:{nlinks}")
+        ck.compare_tables("after genuine traffic")
+        await tamper_round(ctx, rng, ck, sim, senders, nlinks, True, all_bytes_sizes, kindtag="e2e")
+        await inject_round(ctx, rng, ck, sim, [d], None, nlinks, senders=senders, kindtag="e2e")
+        await rp_reflect_round(ctx, rng, ck, sim, senders)
+        ck.compare_tables("at the end")
+    finally:
+        if ck.drv is not None:
+            ck.drv.close()
+        await sim.stop()
+
+
+# ------------------------------------------------------------------------------------------------------------------
+async def run_preready(ctx: Ctx, rng, use_model: bool, seed_tag: str):
+    """a circuit that is still waiting for CREATED has no session keys at all: nothing but the (plaintext-flagged)
+    created message may be accepted on it — in particular no cell "in clear" may be delivered as circuit data"""
+    from ipv8.messaging.anonymization.payload import DataPayload, PingPayload
+    from ipv8.messaging.anonymization.tunnel import PEER_FLAG_EXIT_BT, PEER_FLAG_RELAY, PEER_FLAG_SPEED_TEST
+    sim = Sim(rng, hidden=False, open_policy=True)
+    tag = f"preready/{seed_tag}"
+    ck = Checker(ctx, sim, use_model, tag)
+    try:
+        for _ in range(3):
+            sim.add_node()
+        sim.nodes[1].overlay.settings.peer_flags = {PEER_FLAG_RELAY, PEER_FLAG_SPEED_TEST, PEER_FLAG_EXIT_BT}
+        await sim.introduce()
+        o = sim.nodes[0].overlay
+        sim.hold.add(0)                      # the CREATE is lost: the circuit stays without hops
+        c = o.create_circuit(1)
+        await sim.settle()
+        if c is None or c.hops:
+            return
+        ctx.count("scenario:preready")
+        first_hop = sim.addr2idx.get(tuple(c.hop.address), 1)
+        sim.key_ids()
+        ck.load_tables()
+        prefix = o.get_prefix()
+        ser = o.serializer
+        size = rng.choice([0, 5, 40, 300])
+        foreign = rand_payload(rng, size)
+        msgs = {
+            "data": bytes([1]) + ser.pack_serializable(DataPayload(c.circuit_id, ZERO, ("6.6.6.6", 6), foreign))[4:],
+            "ping": bytes([6]) + ser.pack_serializable(PingPayload(c.circuit_id, 7))[4:],
+            "garbage": b"\x55" + bytes(rng.getrandbits(8) for _ in range(40)),
+        }
+        for kind, msg in msgs.items():
+            for src in (first_hop, 2):
+                for ptf in (False, True):
+                    pkt = prefix + b"\x00" + struct.pack("!I??", c.circuit_id, ptf, False) + msg
+                    replay = {"scenario": tag, "op": "inject", "kind": f"no-keys-{kind}", "dst": 0, "src": src, "cid": c.circuit_id,
+                              "flagged_plaintext": ptf, "datagram": pkt.hex(), "hops": 1}
+                    n_raw = len(sim.raw_log)
+                    f2 = len(sim.passages)
+                    q = sim.inject(0, src, pkt)
+                    await sim.settle()
+                    if sim.raw_log[n_raw:] or any(p.delivered for p in sim.passages[f2:]):
+                        ctx.oracle_fail("incoming_crypto:no-keys-cell-delivered",
+                                        f"{tag}: a cell in clear ({kind}, plaintext flag {ptf}) sent to a circuit that has no hop keys yet was "
+                                        f"delivered{' to on_raw_data as circuit data' if sim.raw_log[n_raw:] else ' to the cell handlers'}", replay)
+                    ctx.count(f"inject:no-keys-{kind}")
+                    if ck.drv is not None:
+                        m = ck.ask(f"inject 0 {src} {c.circuit_id} {int(ptf)} 0 [] {msg.hex()}")
+                        mw, mfin, reason = canon_model(m)
+                        real = real_trace(sim, q, msg)
+                        fin = real_final(q, 0)
+                        ctx.count(f"model_final:{reason}")
+                        if mw != real or mfin != fin:
+                            ctx.disagree(f"{tag}: cell in clear for a circuit without keys: model {mw} {mfin} != implementation {real} {fin}",
+                                         {**replay, "model": m, "impl": real + [fin]})
+                    ctx.case(("preready", kind, src == first_hop, ptf), True)
+    finally:
+        if ck.drv is not None:
+            ck.drv.close()
+        sim.hold.clear()
+        await sim.stop()
 
 
 # ------------------------------------------------------------------------------------------------------------------
@@ -946,21 +1195,32 @@ def run_async(coro_fn):
         loop.close()
 
 
+def note_errs(ctx, errs):
+    for e in errs:
+        ctx.count("loop_exception")
+        ctx.extra.setdefault("loop_exceptions", [])
+        if len(ctx.extra["loop_exceptions"]) < 5:
+            ctx.extra["loop_exceptions"].append(e)
+
+
 def run(ctx: Ctx):
     if ctx.replay_input is not None:
         return replay(ctx, ctx.replay_input)
     use_model = ctx.model_ok
-    rounds = ctx.scale(1, 3)
+    rounds = ctx.scale(5, 24)
     for rnd in range(rounds):
         for hops in (1, 2, 3):
             sub = _random.Random(ctx.rng.getrandbits(64))
-            allb = (17,) if (ctx.thorough() and rnd == 0) else ()
+            allb = ((17, 279) if rnd == 0 else (0,) if rnd == 1 else ()) if ctx.thorough() else ()
             _, errs = run_async(lambda: run_plain(ctx, sub, hops, use_model, f"s{ctx.seed}r{rnd}", allb))
-            for e in errs:
-                ctx.count("loop_exception")
-                ctx.extra.setdefault("loop_exceptions", [])
-                if len(ctx.extra["loop_exceptions"]) < 5:
-                    ctx.extra["loop_exceptions"].append(e)
+            note_errs(ctx, errs)
+        sub = _random.Random(ctx.rng.getrandbits(64))
+        allb = ((17, 279) if rnd == 0 else ()) if ctx.thorough() else ()
+        _, errs = run_async(lambda: run_e2e(ctx, sub, use_model, f"s{ctx.seed}r{rnd}", allb))
+        note_errs(ctx, errs)
+        sub = _random.Random(ctx.rng.getrandbits(64))
+        _, errs = run_async(lambda: run_preready(ctx, sub, use_model, f"s{ctx.seed}r{rnd}"))
+        note_errs(ctx, errs)
 
 
 def search(ctx: Ctx, reason: str):
@@ -968,11 +1228,23 @@ def search(ctx: Ctx, reason: str):
         for hops in (1, 2, 3):
             sub = _random.Random(ctx.rng.getrandbits(64))
             run_async(lambda: run_plain(ctx, sub, hops, False, f"search{rnd}"))
+        sub = _random.Random(ctx.rng.getrandbits(64))
+        run_async(lambda: run_e2e(ctx, sub, False, f"search{rnd}"))
+        sub = _random.Random(ctx.rng.getrandbits(64))
+        run_async(lambda: run_preready(ctx, sub, False, f"search{rnd}"))
 
 
 def replay(ctx: Ctx, rec: dict):
+    """Session keys are fresh random values in every run, so a recorded datagram cannot be re-sent literally; a replay
+    re-runs the recorded seed and tier (all scenario choices, sizes, links and byte positions derive from the seed) and
+    reports whether the recorded signature fails again."""
     r = rec.get("replay", rec)
-    print("replay record:", {k: (v if len(str(v)) < 80 else str(v)[:80] + "...") for k, v in r.items()})
-    hops = int(r.get("hops", 2))
-    sub = _random.Random(ctx.seed)
-    run_async(lambda: run_plain(ctx, sub, hops, False, "replay"))
+    sig = rec.get("signature")
+    print("replay of:", sig, {k: (v if len(str(v)) < 60 else str(v)[:60] + "...") for k, v in r.items()})
+    ctx.seed = int(rec.get("seed", ctx.seed))
+    ctx.tier = rec.get("tier", ctx.tier)
+    ctx.rng = _random.Random(ctx.seed)
+    ctx.replay_input = None
+    run(ctx)
+    again = [f for f in ctx.failures if f["signature"] == sig]
+    print(f"replay: signature {sig} {'FAILS again' if again else 'does not fail'} ({len(ctx.failures)} oracle failures in total)")
